@@ -393,12 +393,15 @@ func inAlphabet(s string) bool {
 }
 
 func safeParse(conf *eval.Config, src string) (ast *eval.VerifAst, cc *eval.Config, err error) {
-	defer func() {
-		if p := recover(); p != nil {
-			err = fmt.Errorf("panic: %v", p)
-		}
-	}()
-	return eval.VerifParse(conf, src, false)
+	guarded(map[string]interface{}{"call": "parse", "source": src}, func() {
+		defer func() {
+			if p := recover(); p != nil {
+				err = fmt.Errorf("panic: %v", p)
+			}
+		}()
+		ast, cc, err = eval.VerifParse(conf, src, false)
+	})
+	return
 }
 
 func safeParseGT(conf *eval.Config, src string) (*GT, error) {
